@@ -66,6 +66,7 @@ var clauseRe = regexp.MustCompile(`^(requires|ensures|modifies|emits|calls|invar
 
 type ContractFile struct {
 	Contracts []*Contract
+	Steps     []*Clause // step[label] expr: must hold over (old state, new state, msg) for every successful transaction
 	Lemmas    []*Lemma
 	SpecFuns  []*SpecFun
 }
@@ -128,6 +129,20 @@ func ParseContractFile(path string) (*ContractFile, error) {
 	for _, l := range ls {
 		t := l.text
 		if t == "" || strings.HasPrefix(t, "macro ") {
+			continue
+		}
+		if strings.HasPrefix(t, "step[") {
+			t2, err := expandMacros(t, macros, 0)
+			if err != nil {
+				return nil, fmt.Errorf("%s:%d: %v", path, l.no, err)
+			}
+			end := strings.Index(t2, "]")
+			label := t2[len("step["):end]
+			e, err := ParseExpr(strings.TrimSpace(t2[end+1:]))
+			if err != nil {
+				return nil, fmt.Errorf("%s:%d: %v", path, l.no, err)
+			}
+			out.Steps = append(out.Steps, &Clause{Kind: "step", Label: label, Props: propRe.FindAllString(label, -1), E: e, Text: strings.TrimSpace(t2[end+1:]), File: path, Line: l.no})
 			continue
 		}
 		if strings.HasPrefix(t, "specfun ") {
